@@ -302,6 +302,13 @@ def linear_part(rep):
         X = np.where(near, 2**32 - 1 - rng.integers(0, 3, (d, w)), X).astype(np.uint32)
         Y = np.where(rng.random((d, w)) < 0.4, rng.integers(0, 4, (d, w)), Y).astype(np.uint32)
         tables.append((X, Y))
+    # wide tables: more columns than any internal block size, not multiples of it, primes
+    for d, w in ((1, 4097), (2, 6145), (1, 10007), (3, 4096), (1, 16385), (2, 8191)):
+        X = rng.integers(0, 2**20, (d, w), dtype=np.uint64).astype(np.uint32)
+        Y = rng.integers(1, 2**20, (d, w), dtype=np.uint64).astype(np.uint32)
+        X[:, -3:] = (7, 2**32 - 2, 2**31)  # the LAST columns of every row carry tell-tale values
+        Y[:, -3:] = (5, 9, 2**31)
+        tables.append((X, Y))
     cells = 0
     for X, Y in tables:
         d, w = X.shape
@@ -321,13 +328,14 @@ def linear_part(rep):
         rep.evals(X.size)
         if not np.array_equal(a.cms, exp):
             i, j = (int(x) for x in np.argwhere(a.cms != exp)[0])
-            rep.violation({"kind": "linear", "a": int(X[i, j]), "b": int(Y[i, j])},
-                          f"linear merge of {int(X[i,j])} and {int(Y[i,j])} gives "
-                          f"{int(a.cms[i,j])}, expected {int(exp[i,j])}")
+            rep.violation({"kind": "linear", "a": int(X[i, j]), "b": int(Y[i, j]), "seed": rep.seed,
+                           "shape": [d, w], "cell": [i, j]},
+                          f"linear {w}x{d} merge: cell ({i},{j}) holding {int(X[i,j])} merged with "
+                          f"{int(Y[i,j])} gives {int(a.cms[i,j])}, expected {int(exp[i,j])}")
         if (b.cms.tobytes(), b.n_added_records.tobytes()) != bb:
-            rep.violation({"kind": "linear-b"}, "linear merge changed its argument")
+            rep.violation({"kind": "linear-b", "seed": rep.seed}, "linear merge changed its argument")
         if tuple(int(x) for x in a.n_added_records) != (2**40 + 3, 5 + 2**33):
-            rep.violation({"kind": "linear-n"},
+            rep.violation({"kind": "linear-n", "seed": rep.seed},
                           f"linear merge bookkeeping {a.n_added_records} is not the sum")
         a2 = SK.make("linear", w, d)
         a2.cms[...] = X
@@ -335,12 +343,12 @@ def linear_part(rep):
         b.n_added_records[:] = (0, 4)
         a2.merge(b)
         if not np.array_equal(a2.cms, exp) or tuple(int(x) for x in a2.n_added_records) != (9, 5):
-            rep.violation({"kind": "linear-n0"},
+            rep.violation({"kind": "linear-n0", "seed": rep.seed},
                           f"linear: merging a sketch whose n_added() is 0 (n_records 4, non-empty "
                           f"table) does not add its cells / records: {a2.n_added_records}")
         for k, x, y in zip(keys, ea, eb):
             if int(a.query(k)) < min(x + y, U32):
-                rep.violation({"kind": "linear-super"},
+                rep.violation({"kind": "linear-super", "seed": rep.seed},
                               f"merged linear estimate of {k!r} = {int(a.query(k))} is below "
                               f"min(sum of estimates, 2^32-1) = {min(x+y, U32)}")
         rep.nontrivial(("linear", X.shape))
